@@ -54,6 +54,10 @@ Definition sort_td (l : list tcpdata) : list tcpdata :=
 (* TcpFlow::get_full_data: clone, sort by sequence, concatenate ALL stored segments *)
 Definition full_data (l : list tcpdata) : bytes := concat (map td_data (sort_td l)).
 
+(* is_retransmission (fix C09-dup): a stored segment with the same sequence number and the same bytes *)
+Definition is_retrans (l : list tcpdata) (td : tcpdata) : bool :=
+  existsb (fun d => (td_seq d =? td_seq td) && bytes_eqb (td_data d) (td_data td)) l.
+
 Definition is_some {A} (o : option A) : bool := match o with Some _ => true | None => false end.
 
 Section Flow.
@@ -72,12 +76,14 @@ Section Flow.
 
   Definition set_flow (st : state) (k : fkey) (f : tcpflow) : state := cache_update fkey_eqb st k f.
 
-  (* the tail of the payload branch: early removal when both parsed, else FIN/RST clean-up.
+  (* the tail of the payload branch: early removal when both parsed, else clean-up on RST, or on FIN
+     unless the request was reported and the response was not (client half-close; fix for C09-fin).
      `flow_key` is the key of THIS packet (src,dst,sport,dport): for a server-to-client packet the
      flow is stored under the reversed key and the remove misses. *)
   Definition finish (st : state) (pkt_key : fkey) (f : tcpflow) (p : segment) : state :=
     if f_cparsed f && f_sparsed f then cache_remove fkey_eqb st pkt_key
-    else if g_fin p || g_rst p then cache_remove fkey_eqb st pkt_key
+    else if g_rst p || (g_fin p && negb (f_cparsed f && negb (f_sparsed f)))   (* response_pending keeps the flow on FIN *)
+    then cache_remove fkey_eqb st pkt_key
     else st.
 
   (* process_tcp_packet, the `if let Some(flow) = tcp_flow` branch: `k` is the key under which the
@@ -88,7 +94,7 @@ Section Flow.
     | _ :: _ =>
         let td := mkTd (g_seq p) (g_pay p) in
         if is_client && (g_src p =? f_cip f) && (g_sport p =? f_cport f) then
-          if negb (f_cparsed f) then
+          if negb (f_cparsed f) && negb (is_retrans (f_cdata f) td) then
             let cd := f_cdata f ++ [td] in
             let full := full_data cd in
             let f1 := mkFlow (f_cip f) (f_sip f) (f_cport f) (f_sport f) cd (f_sdata f) false (f_sparsed f) in
@@ -100,7 +106,7 @@ Section Flow.
             end
           else (finish st flow_key f p, ONone)
         else if (g_src p =? f_sip f) && (g_sport p =? f_sport f) then
-          if negb (f_sparsed f) then
+          if negb (f_sparsed f) && negb (is_retrans (f_sdata f) td) then
             let sd := f_sdata f ++ [td] in
             (* get_full_data(is_client): is_client is false on this branch unless client and
                server endpoints coincide; transcribed as coded *)
